@@ -50,6 +50,24 @@ var plans = map[string]plan{
 		Stubs:  []string{"TCP/TLS (net.Pipe)", "HTTP server loop", "block stores (in-memory, fault points)", "wall clock (testing/synctest)", "gossip pubsub (absent: announcements are direct)", "libp2p stream transport (absent)"},
 		Assume: commonAssume,
 	},
+	"C06": {
+		Property: "C06", Level: "exploration",
+		Quick:    []phase{{Scen: "C06", Seeds: 12000, Batch: 500}},
+		Thorough: []phase{{Scen: "C06", Seeds: 1500000, Batch: 5000}},
+		Rule: "seeded histories of 5..40 operations (Refresh, Get hit/miss/negative, List) by one caller, in a third of the runs with a second caller issuing overlapping refreshes, over 1..3 gated sources and 6 providers whose per-source content appears, advances, regresses, ties, loses its time or disappears between any two steps; source failures (1/8 of calls in half of the runs), refreshes and miss-fetches cancelled while any source call is open, clock jumps of TTL-1ns/TTL/TTL+1ns/3xTTL and the refresh interval, automatic refresh in a third of the runs. Every read is compared with an executable reference model advanced at the step in which the cache publishes. Non-trivial when a fault fired or two actions were simultaneously enabled; distinct = distinct (schedule hash, fault set, canonical log hash)",
+		Real:   []string{"pcache.ProviderCache (Refresh, fetchMissing, Get, List, timers)"},
+		Stubs:  []string{"provider sources (in-process, gated at every Fetch/FetchAll)", "wall clock (testing/synctest)"},
+		Assume: append([]string{"model relaxations, each where the statement leaves the point open: records with equal advertisement time (incl. two without time) may resolve to either; a provider dropped by a refresh may keep answering 'absent' without a query; records shown only to an update that did not complete are acceptable alternatives and such providers are not probed until a completed refresh reports them"}, commonAssume...),
+	},
+	"C07": {
+		Property: "C07", Level: "exploration",
+		Quick:    []phase{{Scen: "C07", Seeds: 12000, Batch: 500}},
+		Thorough: []phase{{Scen: "C07", Seeds: 1200000, Batch: 5000}, {Scen: "C07R", Seeds: 20000, Batch: 500, Race: true}},
+		Rule: "seeded: 2..4 reader tasks (Get, List) and 1..2 writer tasks (Refresh, missing Get) running concurrently over 1..3 gated sources; the scheduler holds an update open at every source call and at the yield point before each snapshot publication while readers run; clock jumps across TTL and refresh interval with readers calling at once; advertisement times grow monotonically. Oracles: a read of cached data returns in the step it was called in; every read equals the reference model as of the last publication (no missing provider, no half-built listing); no reader goes back in time. Thorough adds real-thread parallel windows under the race detector. Non-trivial when two actions were simultaneously enabled; distinct = distinct (schedule hash, canonical log hash)",
+		Real:   []string{"pcache.ProviderCache"},
+		Stubs:  []string{"provider sources (in-process, gated)", "wall clock (testing/synctest)"},
+		Assume: append([]string{"'without waiting' is decided as 'completes without any other goroutine being scheduled', not as a wall-clock bound", "data-race freedom is decided only by the thorough tier's -race windows, which are seeded but not exactly repeatable"}, commonAssume...),
+	},
 	"C16": {
 		Property: "C16", Level: "exploration",
 		Quick:    []phase{{Scen: "C16", Enum: true, Seeds: 20000, Batch: 2000}},
